@@ -98,6 +98,9 @@ func Derives(v ssa.Value, pred func(ssa.Value) bool, o FlowOpts) (ssa.Value, boo
 		case *ssa.Range:
 			return try(x.X)
 		case *ssa.Call:
+			if _, isBuiltin := x.Call.Value.(*ssa.Builtin); isBuiltin {
+				return try(x.Call.Args...)
+			}
 			if o.ThroughCalls {
 				if x.Call.IsInvoke() {
 					if w, ok := walk(x.Call.Value, depth+1); ok {
